@@ -74,6 +74,7 @@ class Judge:
         self.replayed = 0
         self.samples = {}
         self.viol = {}         # sig (without message text) -> [count, first example]
+        self.pending = {}      # the same key -> disagreements, reported at the end
 
     def bump(self, table, fn, cls):
         d = table.setdefault(fn, {})
@@ -116,7 +117,16 @@ class Judge:
         sig.update(more)
         k = json.dumps({a: b for a, b in sig.items() if a != "msg"}, sort_keys=True)
         self.viol.setdefault(k, [0, what[:300]])[0] += 1
-        self.chk.disagree(sig, what, dict(case, expected=expected))
+        self.pending.setdefault(k, []).append((sig, what, dict(case, expected=expected)))
+
+    def report(self):
+        """Hands the disagreements to the Check, one of every class first (the driver prints the first 25)."""
+        groups = [self.pending[k] for k in sorted(self.pending)]
+        for g in groups:
+            self.chk.disagree(*g[0])
+        for g in groups:
+            for item in g[1:]:
+                self.chk.disagree(*item)
 
     def judge(self, c, role, case, r, deep):
         fn, inp, exp = c["fn"], c["in"], c["exp"]
@@ -405,6 +415,7 @@ def run(tier, seed):
         for cl in classes:
             if judge.classes.get(fn, {}).get(cl, 0) == 0:
                 raise vlib.ToolError(f"vacuous universe: no case of class {cl} for {fn}")
+    judge.report()
     for u in sorted(judge.samples):
         chk.sample(judge.samples[u][1], limit=12)
     chk.traces_validated = judge.replayed
